@@ -427,6 +427,7 @@ func c08TrailingCommaFollowsCloser(c *Ctx) {
 		}
 	}
 	bad := ""
+	badClass := ""
 	n := 0
 	for mask := 0; mask < 1<<len(keys); mask++ {
 		truth := map[string]bool{}
@@ -446,10 +447,11 @@ func c08TrailingCommaFollowsCloser(c *Ctx) {
 				}
 			}
 			bad = fmt.Sprintf("with {%s} true and the rest false: trailing comma=%v, closer on its own line=%v", strings.Join(on, ", "), a == triTrue, b == triTrue)
+			badClass = fmt.Sprintf("/comma=%v,closer=%v,when=%s", a == triTrue, b == triTrue, strings.Join(on, "&"))
 			break
 		}
 	}
 	_ = guard
-	c.check("layout.trailing-comma-follows-closer", f.Name, f.Decl.Pos(), bad == "" && n > 0,
+	c.check("layout.trailing-comma-follows-closer", f.Name+badClass, f.Decl.Pos(), bad == "" && n > 0,
 		fmt.Sprintf("for an authored bracket the trailing-comma decision and the closer-on-its-own-line decision must be the same function of the layout signals (%d assignments of %d signals compared), or the second fmt pass adds the comma the first one withheld: %s", n, len(keys), bad))
 }
